@@ -73,9 +73,9 @@ Lemma m_plain : m_ccp m_pos None None None None = Some 5%positive.
 Proof. vm_compute. reflexivity. Qed.
 Lemma m_exhaustive : filter (fun c => contains_point m_polygon c m_pos) m_columns = [5%positive].
 Proof. vm_compute. reflexivity. Qed.
-(** ... the quadtree search finds nothing *)
-Lemma m_qtree : m_ccp m_pos None None None (Some m_tree) = None.
-Proof. vm_compute. reflexivity. Qed.
+(** ... the quadtree search of the pinned code (no fallback) finds nothing *)
+Lemma m_qtree : quadtree_search_has_fallback = false -> m_ccp m_pos None None None (Some m_tree) = None.
+Proof. intro H. vm_compute in H. first [discriminate H | vm_compute; reflexivity]. Qed.
 (** the leaf for the point is the node [250,500]x[0,150] holding e and j *)
 Lemma m_leaf : option_map (fun l => (qbounds l, qelements l)) (leaf m_tree m_pos)
                = Some (((250, 0), (500, 150)), [3; 6]%positive).
@@ -83,6 +83,7 @@ Proof. vm_compute. reflexivity. Qed.
 
 (** so "the same column whichever search aid is used" fails for the quadtree on the model *)
 Lemma qtree_incomplete_refuted_l :
+  quadtree_search_has_fallback = false ->
   exists polygon centre nbrs bbox columnlist fuel bounds pos T,
     let t := build centre fuel bounds columnlist in
     (qdepth t < fuel)%nat /\
@@ -91,6 +92,7 @@ Lemma qtree_incomplete_refuted_l :
     column_containing_point polygon centre nbrs bbox columnlist pos None None None None = Some T /\
     column_containing_point polygon centre nbrs bbox columnlist pos None None None (Some t) = None.
 Proof.
+  intro Hflag.
   exists m_polygon, m_centre, m_nbrs, m_bbox, m_columns, 64%nat, m_bounds, m_pos, 5%positive.
   cbn zeta. fold m_tree.
   split; [apply Nat.ltb_lt; exact m_tree_depth|].
@@ -100,17 +102,18 @@ Proof.
   - intros c Hc Hp.
     assert (H : In c (filter (fun c => contains_point m_polygon c m_pos) m_columns)) by (apply filter_In; auto).
     rewrite m_exhaustive in H. destruct H as [H|[]]. symmetry; exact H.
-  - split; [exact m_plain|exact m_qtree].
+  - split; [exact m_plain|exact (m_qtree Hflag)].
 Qed.
 
 (** and the hypothesis [connected_near] of the agreement theorem is what fails there *)
 Lemma m_not_connected_near : ~ connected_near m_nbrs m_bbox m_tree m_pos 5%positive.
 Proof.
-  intro H.
+  intros [l [Hl Hr]].
   assert (C : contains_point m_polygon 5%positive m_pos = true) by (vm_compute; reflexivity).
-  destruct (search_complete_l m_polygon m_nbrs m_bbox m_tree m_pos 5%positive H C) as [e [He _]].
-  assert (E : search m_polygon m_nbrs m_bbox m_tree m_pos = None) by (vm_compute; reflexivity).
-  congruence.
+  destruct (wave_complete m_polygon m_nbrs m_bbox (qelements m_tree) (qbounds l) m_pos
+              (length (qelements l) + length (qelements m_tree)) (qelements l) 5%positive (Nat.le_refl _) Hr C)
+    as [e [W _]].
+  vm_compute in Hl. injection Hl as <-. vm_compute in W. discriminate W.
 Qed.
 
 (** a point for which the hypotheses hold on the same grid (non-vacuity of the agreement theorem):
